@@ -6,6 +6,7 @@
 // unchanged, no unfilled slot visible, no element leaked or destroyed twice, moved-from containers stay usable;
 // memory safety through the ASan+UBSan build and fork isolation.
 #include "fv_explore.hpp"
+#include "fv_pod.hpp"
 
 template <typename T>
 static void run(const mc::Args& a, const char* tn, int max_cap, mc::Report& total, bool& exhaustive)
@@ -36,6 +37,16 @@ int main(int argc, char** argv)
     {
         auto doc = js::load(a.replay);
         const js::Value& w = doc.has("witness") ? doc.at("witness") : doc;
+        if (w.has("pod"))
+        {
+            mc::Report r;
+            fvpod::all("C06", r, false);
+            for (auto& v : r.violations)
+                printf("  FAILED clause: %s\n    %s\n", v.second.clause.c_str(), v.second.detail.c_str());
+            if (r.violations.empty())
+                printf("replay C06 (trivially copyable elements): conforms\n");
+            return r.violations.empty() ? 0 : 1;
+        }
         if (w.s("type") == "CopyOnly")
         {
             fv::Explorer<fv::CopyOnly> ex;
@@ -61,6 +72,7 @@ int main(int argc, char** argv)
     run<fv::Tracked>(a, "Tracked", cap, total, exhaustive);
     run<fv::MoveOnly>(a, "MoveOnly", cap, total, exhaustive);
     run<fv::CopyOnly>(a, "CopyOnly", std::min(cap, 4), total, exhaustive);
+    fvpod::all("C06", total, a.asan());
     total.counters["bound_max_capacity"] = cap;
     total.counters["bound_values"] = 2;
     total.counters["wall_ms"] = static_cast<long long>((mc::now_s() - t0) * 1000);
